@@ -10,6 +10,7 @@ import (
 	"regexp"
 	"runtime"
 	"runtime/debug"
+	"strconv"
 	"strings"
 	"syscall"
 
@@ -464,6 +465,12 @@ func (rw readerWrap) consumed(l *simnet.Link) int {
 }
 
 func wrapReader(kind string, l *simnet.Link) readerWrap {
+	if k, ok := strings.CutPrefix(kind, "limited-cut:"); ok {
+		// the caller hands over a frame of a LONGER stream: an *io.LimitedReader whose limit
+		// ends the input while the stream underneath goes on
+		n, _ := strconv.Atoi(k)
+		return readerWrap{r: &io.LimitedReader{R: struct{ io.Reader }{l}, N: int64(n)}}
+	}
 	switch kind {
 	case "bytereader":
 		return readerWrap{r: simnet.ByteReaderLink{Link: l}}
